@@ -402,8 +402,62 @@ class Split(Part):
         return out
 
 
+class LoadMix(Part):
+    """The static load's time-domain form (constant power / current / impedance mix) must reproduce the power-flow load."""
+    name = 'loadmix'
+    chunk = 2
+    timeout = 600.0
+    nproc = 8
+    MIX = [(1.0, 0.0, 0.0), (0.0, 1.0, 0.0), (0.0, 0.0, 1.0), (0.2, 0.5, 0.3), (0.3, 0.1, 0.6)]
+    SYSTEMS = ['kundur/kundur_full.xlsx', 'ieee14/ieee14_fault.xlsx']
+
+    def describe(self, tier):
+        return (f'{self.SYSTEMS}: PQ conversion weights (p2p, p2i, p2z) x (q2q, q2i, q2z) over {self.MIX} (25 combinations, legal: '
+                f'each triple sums to 1); power flow, TDS.init, truthfulness + success + undisturbed 1 s run')
+
+    def cases(self, tier):
+        import itertools
+        return [dict(sys=s, p=list(a), q=list(b)) for s in self.SYSTEMS for a, b in itertools.product(self.MIX, repeat=2)]
+
+    def execute(self, case):
+        from vmc import systems
+        out = Outcome()
+        seen = set()
+
+        def bad(sig, msg):
+            if sig not in seen:
+                seen.add(sig)
+                out.bad(sig, msg)
+        ss = systems.load_case(case['sys'], setup=False)
+        for m in ('Toggle', 'Fault', 'Alter'):
+            mdl = getattr(ss, m)
+            if mdl.n:
+                mdl.u.v = [0] * mdl.n
+        # set on the live configuration object (not through config_option: model configuration is part of the code checksum)
+        c = ss.PQ.config
+        c.p2p, c.p2i, c.p2z = case['p']
+        c.q2q, c.q2i, c.q2z = case['q']
+        ss.setup()
+        systems.quiet_tds(ss)
+        if not ss.PFlow.run():
+            out.obs = dict(skipped='power flow failed')
+            return out
+        same = 'same' if case['p'] == case['q'] else 'different'
+        tag = f'mix:{same}_weights_for_P_and_Q'
+        try:
+            ss.TDS.init()
+        except Exception as e:
+            bad(f'init_raises:{type(e).__name__}:{tag}', f'{case}: {type(e).__name__}: {e}')
+            out.obs = dict(exc=type(e).__name__)
+            return out
+        out.obs = dict(case=case, **audit_init(ss, bad, tag, demand_success=True))
+        out.nontrivial = True
+        out.transitions = 3
+        return out
+
+
 def parts(tier):
-    return [Stock(), Attach(tier), Split()]
+    return [Stock(), Attach(tier), Split(), LoadMix()]
 
 
 def run(run, only=None):
